@@ -109,6 +109,35 @@ theorem C17_discard_wins (ao : AliasOracle) (cfg : OpCfg) (L : List Ev) (id : Na
   simp only [hact]
   rw [hef.2.1, hin.2.2, hlog]
 
+/-- Switching recording off while the operation runs (after F15 it aborts the recording in flight) wins like an explicit
+discard: whatever the rest of the operation does - forcing, switching recording on again - nothing is saved and the sampling
+stream is not touched. -/
+theorem C17_switch_off_wins (ao : AliasOracle) (cfg : OpCfg) (L : List Ev) (id : Nat) (s : St) (rest : Prog)
+    (excFlag : Option Bool) (tStart : Nat) (hs : Scope L id s) :
+    (finishRecording ao cfg (execOperationFunc (doSetEnabled s false) rest).1 excFlag tStart).log
+      = L ++ [.create id, .abort id] ∧
+    (finishRecording ao cfg (execOperationFunc (doSetEnabled s false) rest).1 excFlag tStart).draws = s.draws := by
+  have hs' : Scope L id (doSetEnabled s false) := scope_doSetEnabled false hs
+  have hd : (doSetEnabled s false).active = none := doSetEnabled_false_active s
+  have hf : (doSetEnabled s false).forced = false := by
+    rcases hs'.2.2 with ⟨a, ha, _⟩ | ⟨_, hf, _⟩
+    · rw [hd] at ha; cases ha
+    · exact hf
+  have hlog : (doSetEnabled s false).log = L ++ [.create id, .abort id] := by
+    rcases hs'.2.2 with ⟨a, ha, _⟩ | ⟨_, _, _, hl⟩
+    · rw [hd] at ha; cases ha
+    · exact hl
+  have hin := exec_inactive rest (doSetEnabled s false) hd hf
+  have hef := execOperationFunc_fields (doSetEnabled s false) rest
+  have hact := hef.2.2.2.2.2.2.2 hin.1
+  have hrng := execOperationFunc_rng (doSetEnabled s false) rest
+  have hfd := finishRecording_draws ao cfg (execOperationFunc (doSetEnabled s false) rest).1 excFlag tStart
+  refine ⟨?_, ?_⟩
+  · unfold finishRecording
+    simp only [hact]
+    rw [hef.2.1, hin.2.2, hlog]
+  · rw [hfd.1, hact, hrng.1]; simp
+
 /-- Forcing does not leak into the next run: after any run the flag is clear (C09). -/
 theorem C17_no_leak (ao : AliasOracle) (s : St) (r : Run) (h : s.Idle) : (execRun ao s r).1.forced = false := by
   cases r with
